@@ -17,11 +17,29 @@ Open Scope list_scope.
 Definition dotted_err : err := EGo "symbol contains '.'".
 
 (* [strict]: the dotted-module error cannot come out of this kind of command at all *)
-Definition env_eq (strict : bool) (e0 : nat) (o : outcome) : Prop :=
+Definition nonsentinel (e : err) : Prop := match e with ESentinel _ => False | _ => True end.
+Definition anyerr (e : err) : Prop := True.
+(* a loop consumes break and continue *)
+Definition noloopsig (e : err) : Prop := e <> ESentinel SBreakS /\ e <> ESentinel SContinueS.
+
+(* [EP]: what is known about an error coming out of this kind of command *)
+Definition env_eq (strict : bool) (EP : err -> Prop) (e0 : nat) (o : outcome) : Prop :=
   match o with
   | Ok s' => r_env s' = e0
-  | Err e s' => (strict = false /\ e = dotted_err) \/ r_env s' = e0
+  | Err e s' => (strict = false /\ e = dotted_err) \/ (r_env s' = e0 /\ EP e)
   | Abort _ => True
+  end.
+
+(* expressions, assignments and calls never end with one of the control-flow sentinels
+   (ErrBreak, ErrContinue, ErrReturn, ErrInterrupt): a script function boundary wraps whatever
+   its body ended with into a fresh *vm.Error; the loop commands never end with break/continue;
+   the deferred-call loop ends with a sentinel only if it was handed that sentinel *)
+Definition err_pred (c : cmd) : err -> Prop :=
+  match c with
+  | CStmt _ => anyerr
+  | CLoop _ _ _ | CForSlice _ _ _ _ _ _ | CForMap _ _ _ _ | CCFor _ _ _ _ => noloopsig
+  | CDefers _ err0 => fun e => nonsentinel e \/ err0 = Some e
+  | _ => nonsentinel
   end.
 
 (* statements may end with the dotted-module error in the module's scope; expressions,
@@ -43,16 +61,33 @@ Section Scope.
 Variable orc : oracle.
 Variable cancel_at : option nat.
 Variable rec : cmd -> rstate -> outcome.
-Hypothesis Hrec : forall c s, env_eq (strict_cmd c) (post_env c s) (rec c s).
+Hypothesis Hrec : forall c s, env_eq (strict_cmd c) (err_pred c) (post_env c s) (rec c s).
 
-Ltac simp := cbn [r_env r_st r_rv r_defers set_st set_env set_rv set_defers env_eq post_env strict_cmd fst snd] in *.
+Ltac simp := cbn [r_env r_st r_rv r_defers set_st set_env set_rv set_defers env_eq post_env strict_cmd err_pred fst snd] in *.
 
 (* use the hypothesis on the next call of the interpreter in the goal; the Err and Abort
    branches are closed when they merely propagate *)
+Lemma nonsentinel_noloopsig e : nonsentinel e -> noloopsig e.
+Proof. destruct e as [[| | |]| |]; cbn; intros H; try contradiction; split; discriminate. Qed.
+
+(* establish the error predicate of the goal, possibly from a fact He about the same error *)
+Ltac ep_solve :=
+  first [ exact I | assumption | (unfold anyerr; exact I) | (cbn; exact I)
+        | (apply nonsentinel_noloopsig; first [assumption | (cbn; exact I)])
+        | (unfold noloopsig; split; discriminate)
+        | (left; first [assumption | (cbn; exact I)]) | (right; reflexivity)
+        | match goal with Himp : forall x, nonsentinel x -> _ |- _ => apply Himp; first [assumption | (cbn; exact I)] end ].
+
+Ltac imp_solve :=
+  first [ assumption | (intros ? ?; assumption) | (intros; unfold anyerr; exact I)
+        | (intros; apply nonsentinel_noloopsig; assumption) ].
+
 Ltac close_err H :=
   simp; first [ exact I | assumption | reflexivity
-              | (destruct H as [[H H']|H]; [first [discriminate H | (left; split; [reflexivity|exact H'])] | right; simp; congruence])
-              | (right; simp; congruence) | (right; reflexivity) ].
+              | (destruct H as [[H H']|[H H']];
+                 [first [discriminate H | (left; split; [reflexivity|exact H'])]
+                 | right; split; [simp; congruence | ep_solve]])
+              | (right; split; [simp; first [reflexivity | congruence] | ep_solve]) ].
 
 Ltac step_rec :=
   match goal with
@@ -62,161 +97,169 @@ Ltac step_rec :=
       destruct (rec cc ss) as [?s|?e ?s|?a]; simp; [ | try solve [close_err H] | try exact I ]
   end.
 
-Lemma env_eq_err b e0 e s : r_env s = e0 -> env_eq b e0 (Err e s).
-Proof. intros H. right. exact H. Qed.
+Lemma env_eq_err b (EP : err -> Prop) e0 e s : r_env s = e0 -> EP e -> env_eq b EP e0 (Err e s).
+Proof. intros H He. right. split; assumption. Qed.
 
-Lemma env_eq_weaken b e0 o : env_eq true e0 o -> env_eq b e0 o.
-Proof. destruct o; cbn; auto. intros [[H _]|H]; [discriminate|now right]. Qed.
+Lemma env_eq_weaken b (EP EP' : err -> Prop) e0 o :
+  (forall e, EP e -> EP' e) -> env_eq true EP e0 o -> env_eq b EP' e0 o.
+Proof. intros Himp. destruct o; cbn; auto. intros [[H _]|[H He]]; [discriminate|right; auto]. Qed.
 
-Lemma raise_env b e0 m s : r_env s = e0 -> env_eq b e0 (raise m s).
-Proof. intros H. right. exact H. Qed.
+Lemma env_eq_mono b (EP EP' : err -> Prop) e0 o :
+  (forall e, EP e -> EP' e) -> env_eq b EP e0 o -> env_eq b EP' e0 o.
+Proof. intros Himp. destruct o; cbn; auto. intros [H|[H He]]; [now left|right; auto]. Qed.
 
-Lemma ret_env b e0 v s : r_env s = e0 -> env_eq b e0 (ret v s).
+Lemma raise_env b (EP : err -> Prop) e0 m s : r_env s = e0 -> EP (EVm m) -> env_eq b EP e0 (raise m s).
+Proof. intros H He. right. split; assumption. Qed.
+
+Lemma ret_env b (EP : err -> Prop) e0 v s : r_env s = e0 -> env_eq b EP e0 (ret v s).
 Proof. intros H. exact H. Qed.
 
-Lemma unsupported_env b e0 m : env_eq b e0 (unsupported m).
+Lemma unsupported_env b (EP : err -> Prop) e0 m : env_eq b EP e0 (unsupported m).
 Proof. exact I. Qed.
 
-Lemma tri_bind_env {A} b e0 (t : tri A) k onerr :
-  (forall a, env_eq b e0 (k a)) -> env_eq b e0 onerr -> env_eq b e0 (tri_bind t k onerr).
+Lemma tri_bind_env {A} b (EP : err -> Prop) e0 (t : tri A) k onerr :
+  (forall a, env_eq b EP e0 (k a)) -> env_eq b EP e0 onerr -> env_eq b EP e0 (tri_bind t k onerr).
 Proof. intros Hk He. destruct t; cbn; auto. Qed.
 
-Lemma with_int_env b e0 t k : (forall z, env_eq b e0 (k z)) -> env_eq b e0 (with_int t k).
+Lemma with_int_env b (EP : err -> Prop) e0 t k : (forall z, env_eq b EP e0 (k z)) -> env_eq b EP e0 (with_int t k).
 Proof. intros Hk. unfold with_int. apply tri_bind_env; auto. Qed.
 
-Lemma with_float_env b e0 t k : (forall z, env_eq b e0 (k z)) -> env_eq b e0 (with_float t k).
+Lemma with_float_env b (EP : err -> Prop) e0 t k : (forall z, env_eq b EP e0 (k z)) -> env_eq b EP e0 (with_float t k).
 Proof. intros Hk. unfold with_float. apply tri_bind_env; auto. Qed.
 
-Lemma truthy_env b e0 s k : (forall x, env_eq b e0 (k x)) -> env_eq b e0 (truthy orc s k).
+Lemma truthy_env b (EP : err -> Prop) e0 s k : (forall x, env_eq b EP e0 (k x)) -> env_eq b EP e0 (truthy orc s k).
 Proof. intros Hk. unfold truthy. apply tri_bind_env; auto. Qed.
 
-Lemma eval_operand_env b e0 e s k :
-  r_env s = e0 -> (forall v s1, r_env s1 = e0 -> env_eq b e0 (k v s1)) -> env_eq b e0 (eval_operand rec e s k).
+Lemma eval_operand_env b (EP : err -> Prop) e0 e s k :
+  (forall x, nonsentinel x -> EP x) ->
+  r_env s = e0 -> (forall v s1, r_env s1 = e0 -> env_eq b EP e0 (k v s1)) -> env_eq b EP e0 (eval_operand rec e s k).
 Proof.
-  intros Hs Hk. unfold eval_operand. step_rec. apply Hk. congruence.
+  intros Himp Hs Hk. unfold eval_operand. step_rec. apply Hk. congruence.
 Qed.
 
-Lemma eval_values_env b e0 es : forall s acc k,
-  r_env s = e0 -> (forall vs s1, r_env s1 = e0 -> env_eq b e0 (k vs s1)) -> env_eq b e0 (eval_values rec es s acc k).
+Lemma eval_values_env b (EP : err -> Prop) e0 es : (forall x, nonsentinel x -> EP x) -> forall s acc k,
+  r_env s = e0 -> (forall vs s1, r_env s1 = e0 -> env_eq b EP e0 (k vs s1)) -> env_eq b EP e0 (eval_values rec es s acc k).
 Proof.
-  induction es as [|e r IH]; intros s acc k Hs Hk; cbn [eval_values].
+  intros Himp. induction es as [|e r IH]; intros s acc k Hs Hk; cbn [eval_values].
   - now apply Hk.
   - step_rec. apply IH; [congruence|assumption].
 Qed.
 
-Lemma eval_rvals_env b e0 es : forall s acc k,
-  r_env s = e0 -> (forall vs s1, r_env s1 = e0 -> env_eq b e0 (k vs s1)) -> env_eq b e0 (eval_rvals rec es s acc k).
+Lemma eval_rvals_env b (EP : err -> Prop) e0 es : (forall x, nonsentinel x -> EP x) -> forall s acc k,
+  r_env s = e0 -> (forall vs s1, r_env s1 = e0 -> env_eq b EP e0 (k vs s1)) -> env_eq b EP e0 (eval_rvals rec es s acc k).
 Proof.
-  induction es as [|e r IH]; intros s acc k Hs Hk; cbn [eval_rvals].
+  intros Himp. induction es as [|e r IH]; intros s acc k Hs Hk; cbn [eval_rvals].
   - now apply Hk.
   - step_rec. apply IH; [congruence|assumption].
 Qed.
 
-Lemma eval_rhs_env b e0 es : forall s acc k,
-  r_env s = e0 -> (forall vs s1, r_env s1 = e0 -> env_eq b e0 (k vs s1)) -> env_eq b e0 (eval_rhs rec es s acc k).
+Lemma eval_rhs_env b (EP : err -> Prop) e0 es : (forall x, nonsentinel x -> EP x) -> forall s acc k,
+  r_env s = e0 -> (forall vs s1, r_env s1 = e0 -> env_eq b EP e0 (k vs s1)) -> env_eq b EP e0 (eval_rhs rec es s acc k).
 Proof.
-  induction es as [|e r IH]; intros s acc k Hs Hk; cbn [eval_rhs].
+  intros Himp. induction es as [|e r IH]; intros s acc k Hs Hk; cbn [eval_rhs].
   - now apply Hk.
   - step_rec.
     destruct (copy_if_module _ _) as [[st' rv']|]; [|exact I].
     apply IH; [simp; congruence|assumption].
 Qed.
 
-Lemma eval_opt_index_env b e0 oe s d k notnum :
-  r_env s = e0 -> (forall z s1, r_env s1 = e0 -> env_eq b e0 (k z s1)) ->
-  (forall s1, r_env s1 = e0 -> env_eq b e0 (notnum s1)) ->
-  env_eq b e0 (eval_opt_index rec oe s d k notnum).
+Lemma eval_opt_index_env b (EP : err -> Prop) e0 oe s d k notnum :
+  (forall x, nonsentinel x -> EP x) ->
+  r_env s = e0 -> (forall z s1, r_env s1 = e0 -> env_eq b EP e0 (k z s1)) ->
+  (forall s1, r_env s1 = e0 -> env_eq b EP e0 (notnum s1)) ->
+  env_eq b EP e0 (eval_opt_index rec oe s d k notnum).
 Proof.
-  intros Hs Hk Hn. unfold eval_opt_index. destruct oe as [e|]; [|now apply Hk].
+  intros Himp Hs Hk Hn. unfold eval_opt_index. destruct oe as [e|]; [|now apply Hk].
   step_rec. apply tri_bind_env; [intros; apply Hk|apply Hn]; congruence.
 Qed.
 
 (* ---------------- operators ---------------- *)
 Ltac fin :=
   unfold ret, raise, unsupported, arity_error; simp;
-  first [ exact I | reflexivity | congruence | (right; simp; first [reflexivity | congruence]) ].
+  first [ exact I | reflexivity | congruence
+        | (right; split; [simp; first [reflexivity | congruence] | ep_solve]) ].
 
-Lemma invoke_binary_env l op r s : env_eq true (r_env s) (invoke_binary orc rec l op r s).
+Lemma invoke_binary_env l op r s : env_eq true nonsentinel (r_env s) (invoke_binary orc rec l op r s).
 Proof.
-  unfold invoke_binary. apply eval_operand_env; [reflexivity|]. intros lv s1 H1.
+  unfold invoke_binary. apply eval_operand_env; [imp_solve|reflexivity|]. intros lv s1 H1.
   apply tri_bind_env.
   - intros lb. destruct (negb (String.eqb op "||") && negb (String.eqb op "&&")); [fin|].
     destruct (if String.eqb op "||" then _ else _); [fin|].
-    apply eval_operand_env; [assumption|]. intros rv s2 H2. apply tri_bind_env; [intros|]; fin.
+    apply eval_operand_env; [imp_solve|assumption|]. intros rv s2 H2. apply tri_bind_env; [intros|]; fin.
   - destruct (String.eqb op "||").
-    + apply eval_operand_env; [assumption|]. intros rv s2 H2. apply tri_bind_env; [intros|]; fin.
+    + apply eval_operand_env; [imp_solve|assumption|]. intros rv s2 H2. apply tri_bind_env; [intros|]; fin.
     + destruct (String.eqb op "&&"); fin.
 Qed.
 
-Lemma invoke_compare_env l op r s : env_eq true (r_env s) (invoke_compare orc rec l op r s).
+Lemma invoke_compare_env l op r s : env_eq true nonsentinel (r_env s) (invoke_compare orc rec l op r s).
 Proof.
-  unfold invoke_compare. apply eval_operand_env; [reflexivity|]. intros lv s1 H1.
-  apply eval_operand_env; [assumption|]. intros rv s2 H2. cbv zeta.
-  assert (Hord : forall fi ff, env_eq true (r_env s)
+  unfold invoke_compare. apply eval_operand_env; [imp_solve|reflexivity|]. intros lv s1 H1.
+  apply eval_operand_env; [imp_solve|assumption|]. intros rv s2 H2. cbv zeta.
+  assert (Hord : forall fi ff, env_eq true nonsentinel (r_env s)
             match lv, rv with
             | VInt a, VInt b => ret (VBool (fi a b)) s2
             | _, _ => with_float (to_float64 orc lv) (fun a =>
                       with_float (to_float64 orc rv) (fun b => ret (VBool (ff a b)) s2))
             end).
   { intros fi ff. destruct lv, rv; try fin; apply with_float_env; intros; apply with_float_env; intros; fin. }
-  repeat match goal with |- env_eq _ _ (if ?c then _ else _) => destruct c end;
+  repeat match goal with |- env_eq _ _ _ (if ?c then _ else _) => destruct c end;
     try apply Hord; try (apply tri_bind_env; [intros|]; fin); fin.
 Qed.
 
-Lemma add_scalars_env lv rv s : env_eq true (r_env s) (add_scalars orc lv rv s).
+Lemma add_scalars_env lv rv s : env_eq true nonsentinel (r_env s) (add_scalars orc lv rv s).
 Proof.
   unfold add_scalars. destruct (precedence_of_kinds _ _);
     repeat (first [apply tri_bind_env | apply with_float_env | apply with_int_env]; intros); fin.
 Qed.
 
-Lemma sub_values_env lv rv s : env_eq true (r_env s) (sub_values orc lv rv s).
+Lemma sub_values_env lv rv s : env_eq true nonsentinel (r_env s) (sub_values orc lv rv s).
 Proof.
   unfold sub_values. destruct lv; destruct rv;
     repeat (first [apply with_float_env | apply with_int_env]; intros); fin.
 Qed.
 
-Lemma mul_values_env lv rv s : env_eq true (r_env s) (mul_values orc lv rv s).
+Lemma mul_values_env lv rv s : env_eq true nonsentinel (r_env s) (mul_values orc lv rv s).
 Proof.
   unfold mul_values. destruct lv; destruct rv;
     repeat match goal with
-           | |- env_eq _ _ (if ?c then _ else _) => destruct c
-           | |- env_eq _ _ (with_float _ _) => apply with_float_env; intros
-           | |- env_eq _ _ (with_int _ _) => apply with_int_env; intros
+           | |- env_eq _ _ _ (if ?c then _ else _) => destruct c
+           | |- env_eq _ _ _ (with_float _ _) => apply with_float_env; intros
+           | |- env_eq _ _ _ (with_int _ _) => apply with_int_env; intros
            end; fin.
 Qed.
 
-Lemma env_eq_to b e0 e1 o : e0 = e1 -> env_eq b e0 o -> env_eq b e1 o.
+Lemma env_eq_to b (EP : err -> Prop) e0 e1 o : e0 = e1 -> env_eq b EP e0 o -> env_eq b EP e1 o.
 Proof. now intros ->. Qed.
 
-Lemma invoke_add_env l op r s : env_eq true (r_env s) (invoke_add orc rec l op r s).
+Lemma invoke_add_env l op r s : env_eq true nonsentinel (r_env s) (invoke_add orc rec l op r s).
 Proof.
-  unfold invoke_add. apply eval_operand_env; [reflexivity|]. intros lv s1 H1.
-  apply eval_operand_env; [assumption|]. intros rv s2 H2. cbv zeta.
+  unfold invoke_add. apply eval_operand_env; [imp_solve|reflexivity|]. intros lv s1 H1.
+  apply eval_operand_env; [imp_solve|assumption|]. intros rv s2 H2. cbv zeta.
   destruct (String.eqb op "+").
-  - destruct lv; try (destruct rv; first [fin | (apply (env_eq_to true (r_env s2)); [assumption|apply add_scalars_env])]).
+  - destruct lv; try (destruct rv; first [fin | (apply (env_eq_to true nonsentinel (r_env s2)); [assumption|apply add_scalars_env])]).
     destruct rv;
       match goal with
-      | |- env_eq _ _ (match ?x with _ => _ end) => destruct x as [[? ?]|]
+      | |- env_eq _ _ _ (match ?x with _ => _ end) => destruct x as [[? ?]|]
       end; fin.
-  - destruct (String.eqb op "-"); [apply (env_eq_to true (r_env s2)); [assumption|apply sub_values_env]|].
+  - destruct (String.eqb op "-"); [apply (env_eq_to true nonsentinel (r_env s2)); [assumption|apply sub_values_env]|].
     destruct (String.eqb op "|"); [|fin]. repeat (apply with_int_env; intros). fin.
 Qed.
 
-Lemma invoke_mul_env l op r s : env_eq true (r_env s) (invoke_mul orc rec l op r s).
+Lemma invoke_mul_env l op r s : env_eq true nonsentinel (r_env s) (invoke_mul orc rec l op r s).
 Proof.
-  unfold invoke_mul. apply eval_operand_env; [reflexivity|]. intros lv s1 H1.
-  apply eval_operand_env; [assumption|]. intros rv s2 H2. cbv zeta.
-  assert (Hints : forall f, env_eq true (r_env s)
+  unfold invoke_mul. apply eval_operand_env; [imp_solve|reflexivity|]. intros lv s1 H1.
+  apply eval_operand_env; [imp_solve|assumption|]. intros rv s2 H2. cbv zeta.
+  assert (Hints : forall f, env_eq true nonsentinel (r_env s)
             (with_int (to_int64 lv) (fun a => with_int (to_int64 rv) (fun b => ret (VInt (f a b)) s2)))).
   { intros f. repeat (apply with_int_env; intros). fin. }
-  repeat match goal with |- env_eq _ _ (if String.eqb ?a ?b then _ else _) => destruct (String.eqb a b) end;
+  repeat match goal with |- env_eq _ _ _ (if String.eqb ?a ?b then _ else _) => destruct (String.eqb a b) end;
     try apply Hints; try fin.
-  - apply (env_eq_to true (r_env s2)); [assumption|apply mul_values_env].
+  - apply (env_eq_to true nonsentinel (r_env s2)); [assumption|apply mul_values_env].
   - repeat (apply with_float_env; intros). fin.
   - apply with_int_env; intros b. destruct (b =? 0)%Z; [fin|]. apply with_int_env; intros. fin.
 Qed.
 
-Lemma invoke_operator_env o s : env_eq true (r_env s) (invoke_operator orc rec o s).
+Lemma invoke_operator_env o s : env_eq true nonsentinel (r_env s) (invoke_operator orc rec o s).
 Proof.
   destruct o; cbn [invoke_operator];
     [apply invoke_binary_env|apply invoke_compare_env|apply invoke_add_env|apply invoke_mul_env].
@@ -227,13 +270,13 @@ Ltac bind_all :=
   repeat first [ apply tri_bind_env; intros | apply with_float_env; intros | apply with_int_env; intros
                | apply truthy_env; intros ].
 
-Lemma invoke_array_env es s : env_eq true (r_env s) (invoke_array rec es s).
+Lemma invoke_array_env es s : env_eq true nonsentinel (r_env s) (invoke_array rec es s).
 Proof.
-  unfold invoke_array. apply eval_values_env; [reflexivity|]. intros vs s1 H1.
+  unfold invoke_array. apply eval_values_env; [imp_solve|reflexivity|]. intros vs s1 H1.
   destruct (new_slice _ _) as [st' sl]. fin.
 Qed.
 
-Lemma invoke_map_entries_env ks : forall vs s m, env_eq true (r_env s) (invoke_map_entries rec ks vs s m).
+Lemma invoke_map_entries_env ks : forall vs s m, env_eq true nonsentinel (r_env s) (invoke_map_entries rec ks vs s m).
 Proof.
   induction ks as [|k kr IH]; intros vs s m; cbn [invoke_map_entries].
   - destruct (alloc_map _ _) as [st' l]. fin.
@@ -242,42 +285,42 @@ Proof.
     step_rec. eapply env_eq_to; [|apply IH]. congruence.
 Qed.
 
-Lemma invoke_unary_env op e s : env_eq true (r_env s) (invoke_unary orc rec op e s).
+Lemma invoke_unary_env op e s : env_eq true nonsentinel (r_env s) (invoke_unary orc rec op e s).
 Proof.
-  unfold invoke_unary. apply eval_operand_env; [reflexivity|]. intros v s1 H1.
-  repeat match goal with |- env_eq _ _ (if String.eqb ?a ?b then _ else _) => destruct (String.eqb a b) end;
+  unfold invoke_unary. apply eval_operand_env; [imp_solve|reflexivity|]. intros v s1 H1.
+  repeat match goal with |- env_eq _ _ _ (if String.eqb ?a ?b then _ else _) => destruct (String.eqb a b) end;
     try (destruct v); bind_all; fin.
 Qed.
 
-Lemma invoke_member_env e name s : env_eq true (r_env s) (invoke_member rec e name s).
+Lemma invoke_member_env e name s : env_eq true nonsentinel (r_env s) (invoke_member rec e name s).
 Proof.
-  unfold invoke_member. apply eval_operand_env; [reflexivity|]. intros v s1 H1.
+  unfold invoke_member. apply eval_operand_env; [imp_solve|reflexivity|]. intros v s1 H1.
   destruct v; try fin.
   destruct (env_get _ _ _); try exact I; fin.
 Qed.
 
-Lemma invoke_item_env e i s : env_eq true (r_env s) (invoke_item rec e i s).
+Lemma invoke_item_env e i s : env_eq true nonsentinel (r_env s) (invoke_item rec e i s).
 Proof.
   unfold invoke_item. step_rec. step_rec. cbv zeta.
   destruct (deref (r_st s1) (r_rv s0)); try fin; bind_all; try fin;
     repeat match goal with
-           | |- env_eq _ _ (if ?c then _ else _) => destruct c
+           | |- env_eq _ _ _ (if ?c then _ else _) => destruct c
            end; bind_all; try fin; try exact I.
 Qed.
 
-Lemma invoke_slice_env e b en c s : env_eq true (r_env s) (invoke_slice rec e b en c s).
+Lemma invoke_slice_env e b en c s : env_eq true nonsentinel (r_env s) (invoke_slice rec e b en c s).
 Proof.
   unfold invoke_slice. step_rec. cbv zeta.
   destruct (deref (r_st s0) (r_rv s0)); try fin;
-    (apply eval_opt_index_env; [congruence| |intros; fin]; intros bi s2 H2;
-     match goal with |- env_eq _ _ (if ?c then _ else _) => destruct c end; [fin|];
-     apply eval_opt_index_env; [congruence| |intros; fin]; intros ei s3 H3;
-     repeat match goal with |- env_eq _ _ (if ?c then _ else _) => destruct c end; try fin).
-  all: apply eval_opt_index_env; [congruence| |intros; fin]; intros ci s4 H4;
-    repeat match goal with |- env_eq _ _ (if ?c then _ else _) => destruct c end; fin.
+    (apply eval_opt_index_env; [imp_solve|congruence| |intros; fin]; intros bi s2 H2;
+     match goal with |- env_eq _ _ _ (if ?c then _ else _) => destruct c end; [fin|];
+     apply eval_opt_index_env; [imp_solve|congruence| |intros; fin]; intros ei s3 H3;
+     repeat match goal with |- env_eq _ _ _ (if ?c then _ else _) => destruct c end; try fin).
+  all: apply eval_opt_index_env; [imp_solve|congruence| |intros; fin]; intros ci s4 H4;
+    repeat match goal with |- env_eq _ _ _ (if ?c then _ else _) => destruct c end; fin.
 Qed.
 
-Lemma invoke_lets_expr_env rs : forall ls s, env_eq true (r_env s) (invoke_lets_expr rec ls rs s).
+Lemma invoke_lets_expr_env rs : forall ls s, env_eq true nonsentinel (r_env s) (invoke_lets_expr rec ls rs s).
 Proof.
   induction rs as [|r rr IH]; intros ls s; cbn [invoke_lets_expr]; [reflexivity|].
   step_rec. destruct ls as [|l lr].
@@ -285,63 +328,65 @@ Proof.
   - step_rec. eapply env_eq_to; [|apply IH]. simp. congruence.
 Qed.
 
-Lemma invoke_ternary_env c l r s : env_eq true (r_env s) (invoke_ternary orc rec c l r s).
+Lemma invoke_ternary_env c l r s : env_eq true nonsentinel (r_env s) (invoke_ternary orc rec c l r s).
 Proof.
   unfold invoke_ternary. step_rec. apply truthy_env. intros b.
   pose proof (Hrec (CExpr (if b then l else r)) s0) as Hx. simp. eapply env_eq_to; [|exact Hx]. congruence.
 Qed.
 
 
-Lemma invoke_coalesce_env l r s : env_eq true (r_env s) (invoke_coalesce rec l r s).
+Lemma invoke_coalesce_env l r s : env_eq true nonsentinel (r_env s) (invoke_coalesce rec l r s).
 Proof.
   unfold invoke_coalesce.
   pose proof (Hrec (CExpr l) s) as H. simp.
   destruct (rec (CExpr l) s) as [s1|e s1|a]; simp; [| |exact I].
   - destruct (is_nil _); [|exact H].
     pose proof (Hrec (CExpr r) s1) as Hx. simp. eapply env_eq_to; [|exact Hx]. congruence.
-  - destruct H as [[H _]|H]; [discriminate|].
-    assert (Hr : env_eq true (r_env s) (rec (CExpr r) s1)).
+  - destruct H as [[H _]|[H He]]; [discriminate|].
+    assert (Hr : env_eq true nonsentinel (r_env s) (rec (CExpr r) s1)).
     { pose proof (Hrec (CExpr r) s1) as Hx. simp. eapply env_eq_to; [|exact Hx]. congruence. }
-    destruct e as [[| | |]|m|m]; try exact Hr. right. exact H.
+    destruct e as [[| | |]|m|m]; try exact Hr. destruct He.
 Qed.
 
 Ltac call_rec e0 :=
   match goal with
-  | |- env_eq _ _ (rec ?cc ?ss) =>
+  | |- env_eq _ _ _ (rec ?cc ?ss) =>
       let Hx := fresh "Hx" in
-      pose proof (Hrec cc ss) as Hx; simp; eapply env_eq_to; [|first [exact Hx | apply env_eq_weaken; exact Hx]]; simp; congruence
+      pose proof (Hrec cc ss) as Hx; simp; eapply env_eq_to;
+      [|first [exact Hx | (eapply env_eq_mono; [|exact Hx]; imp_solve) | (eapply env_eq_weaken; [|exact Hx]; imp_solve)]];
+      simp; congruence
   end.
 
-Lemma invoke_len_env e s : env_eq true (r_env s) (invoke_len rec e s).
+Lemma invoke_len_env e s : env_eq true nonsentinel (r_env s) (invoke_len rec e s).
 Proof.
-  unfold invoke_len. apply eval_operand_env; [reflexivity|]. intros v s1 H1. destruct v; fin.
+  unfold invoke_len. apply eval_operand_env; [imp_solve|reflexivity|]. intros v s1 H1. destruct v; fin.
 Qed.
 
-Lemma invoke_include_env item lst s : env_eq true (r_env s) (invoke_include orc rec item lst s).
+Lemma invoke_include_env item lst s : env_eq true nonsentinel (r_env s) (invoke_include orc rec item lst s).
 Proof.
-  unfold invoke_include. apply eval_operand_env; [reflexivity|]. intros iv s1 H1.
-  apply eval_operand_env; [assumption|]. intros lv s2 H2.
+  unfold invoke_include. apply eval_operand_env; [imp_solve|reflexivity|]. intros iv s1 H1.
+  apply eval_operand_env; [imp_solve|assumption|]. intros lv s2 H2.
   destruct lv; try fin. apply tri_bind_env; [intros|]; fin.
 Qed.
 
-Lemma invoke_func_env name body params vararg s : env_eq true (r_env s) (invoke_func name body params vararg s).
+Lemma invoke_func_env name body params vararg s : env_eq true nonsentinel (r_env s) (invoke_func name body params vararg s).
 Proof.
   unfold invoke_func. destruct (alloc_closure _ _) as [st' c]. fin.
 Qed.
 
-Lemma invoke_anon_call_env f args va go s : env_eq true (r_env s) (invoke_anon_call rec f args va go s).
+Lemma invoke_anon_call_env f args va go s : env_eq true nonsentinel (r_env s) (invoke_anon_call rec f args va go s).
 Proof.
-  unfold invoke_anon_call. apply eval_operand_env; [reflexivity|]. intros fv s1 H1.
+  unfold invoke_anon_call. apply eval_operand_env; [imp_solve|reflexivity|]. intros fv s1 H1.
   destruct fv; try fin; call_rec (r_env s).
 Qed.
 
-Lemma invoke_call_by_name_env name args va go s : env_eq true (r_env s) (invoke_call_by_name rec name args va go s).
+Lemma invoke_call_by_name_env name args va go s : env_eq true nonsentinel (r_env s) (invoke_call_by_name rec name args va go s).
 Proof.
   unfold invoke_call_by_name. destruct (env_get _ _ _); try exact I; try fin.
   destruct (deref _ _); try fin; call_rec (r_env s).
 Qed.
 
-Lemma invoke_expr_env e s : env_eq true (r_env s) (invoke_expr orc rec e s).
+Lemma invoke_expr_env e s : env_eq true nonsentinel (r_env s) (invoke_expr orc rec e s).
 Proof.
   destruct e; cbn [invoke_expr]; try exact I.
   - apply invoke_operator_env.
@@ -365,28 +410,28 @@ Proof.
 Qed.
 
 (* ---------------- assignment ---------------- *)
-Lemma let_item_map_env m key value s : env_eq true (r_env s) (let_item_map m key value s).
+Lemma let_item_map_env m key value s : env_eq true nonsentinel (r_env s) (let_item_map m key value s).
 Proof.
   unfold let_item_map. destruct (negb (hashable key)); [fin|]. destruct (nth_error _ _); [fin|exact I].
 Qed.
 
 Lemma let_item_slice_env ie l off len cap idx value s :
-  env_eq true (r_env s) (let_item_slice rec ie l off len cap idx value s).
+  env_eq true nonsentinel (r_env s) (let_item_slice rec ie l off len cap idx value s).
 Proof.
   unfold let_item_slice. apply tri_bind_env; [intros z|fin].
-  repeat match goal with |- env_eq _ _ (if ?c then _ else _) => destruct c end; try fin.
+  repeat match goal with |- env_eq _ _ _ (if ?c then _ else _) => destruct c end; try fin.
   destruct (append_value _ _ _ _ _ _) as [[st' sl]|]; [|exact I].
   step_rec. destruct sl; try exact I. fin.
 Qed.
 
-Lemma let_item_string_env ie x idx value s : env_eq true (r_env s) (let_item_string rec ie x idx value s).
+Lemma let_item_string_env ie x idx value s : env_eq true nonsentinel (r_env s) (let_item_string rec ie x idx value s).
 Proof.
   unfold let_item_string. apply tri_bind_env; [intros z|fin].
   destruct value; try fin.
-  repeat match goal with |- env_eq _ _ (if ?c then _ else _) => destruct c end; try fin; call_rec (r_env s).
+  repeat match goal with |- env_eq _ _ _ (if ?c then _ else _) => destruct c end; try fin; call_rec (r_env s).
 Qed.
 
-Lemma let_item_env e i s : env_eq true (r_env s) (let_item rec e i s).
+Lemma let_item_env e i s : env_eq true nonsentinel (r_env s) (let_item rec e i s).
 Proof.
   unfold let_item. cbv zeta. step_rec. step_rec.
   destruct (deref (r_st s1) (r_rv s0)); try fin.
@@ -395,7 +440,7 @@ Proof.
   - eapply env_eq_to; [|apply let_item_map_env]. congruence.
 Qed.
 
-Lemma let_member_env e name s : env_eq true (r_env s) (let_member rec e name s).
+Lemma let_member_env e name s : env_eq true nonsentinel (r_env s) (let_member rec e name s).
 Proof.
   unfold let_member. cbv zeta. step_rec.
   destruct (deref (r_st s0) (r_rv s0)); try fin.
@@ -403,19 +448,19 @@ Proof.
   - destruct (env_set _ _ _ _); fin.
 Qed.
 
-Lemma let_slice_env e b en c s : env_eq true (r_env s) (let_slice rec e b en c s).
+Lemma let_slice_env e b en c s : env_eq true nonsentinel (r_env s) (let_slice rec e b en c s).
 Proof.
   unfold let_slice. step_rec. cbv zeta.
   destruct (deref (r_st s0) (r_rv s0)); try fin.
-  apply eval_opt_index_env; [congruence| |intros; fin]; intros bi s2 H2.
-  match goal with |- env_eq _ _ (if ?c then _ else _) => destruct c end; [fin|].
-  apply eval_opt_index_env; [congruence| |intros; fin]; intros ei s3 H3.
-  repeat match goal with |- env_eq _ _ (if ?c then _ else _) => destruct c end; try fin.
-  all: apply eval_opt_index_env; [congruence| |intros; fin]; intros ci s4 H4;
-    repeat match goal with |- env_eq _ _ (if ?c then _ else _) => destruct c end; fin.
+  apply eval_opt_index_env; [imp_solve|congruence| |intros; fin]; intros bi s2 H2.
+  match goal with |- env_eq _ _ _ (if ?c then _ else _) => destruct c end; [fin|].
+  apply eval_opt_index_env; [imp_solve|congruence| |intros; fin]; intros ei s3 H3.
+  repeat match goal with |- env_eq _ _ _ (if ?c then _ else _) => destruct c end; try fin.
+  all: apply eval_opt_index_env; [imp_solve|congruence| |intros; fin]; intros ci s4 H4;
+    repeat match goal with |- env_eq _ _ _ (if ?c then _ else _) => destruct c end; fin.
 Qed.
 
-Lemma invoke_let_env e s : env_eq true (r_env s) (invoke_let rec e s).
+Lemma invoke_let_env e s : env_eq true nonsentinel (r_env s) (invoke_let rec e s).
 Proof.
   destruct e; cbn [invoke_let]; try fin.
   - destruct (env_set _ _ _ _); fin.
@@ -425,71 +470,71 @@ Proof.
 Qed.
 
 (* ---------------- calls ---------------- *)
-Lemma host_call_env h args s : env_eq true (r_env s) (host_call h args s).
+Lemma host_call_env h args s : env_eq true nonsentinel (r_env s) (host_call h args s).
 Proof.
   unfold host_call.
   repeat match goal with
-         | |- env_eq _ _ (match ?x with _ => _ end) => destruct x
+         | |- env_eq _ _ _ (match ?x with _ => _ end) => destruct x
          end; try fin; try exact I.
 Qed.
 
 (* a script function body runs in its own runInfo: whatever it does, the caller's scope is untouched *)
-Lemma run_vm_func_env c args s : env_eq true (r_env s) (run_vm_func rec c args s).
+Lemma run_vm_func_env c args s : env_eq true nonsentinel (r_env s) (run_vm_func rec c args s).
 Proof.
   unfold run_vm_func. destruct (nth_error _ _) as [cl|]; [|exact I].
   destruct (env_new (r_st s) (cl_env cl)) as [st1 e]. destruct (define_params st1 e (cl_params cl) args) as [st2|]; [|exact I].
   cbv zeta.
-  match goal with |- env_eq _ _ (match ?o with _ => _ end) => destruct o as [c2|e0 c2|a] end; try exact I.
+  match goal with |- env_eq _ _ _ (match ?o with _ => _ end) => destruct o as [c2|e0 c2|a] end; try exact I.
   - fin.
   - destruct e0 as [[| | |]|m|m]; fin.
 Qed.
 
-Lemma apply_fn_env f args cs s : env_eq true (r_env s) (apply_fn rec f args cs s).
+Lemma apply_fn_env f args cs s : env_eq true nonsentinel (r_env s) (apply_fn rec f args cs s).
 Proof.
   unfold apply_fn. destruct f; try exact I; [apply run_vm_func_env|apply host_call_env].
 Qed.
 
-Lemma arity_error_env b want got s : env_eq b (r_env s) (arity_error want got s).
+Lemma arity_error_env b want got s : env_eq b nonsentinel (r_env s) (arity_error want got s).
 Proof. unfold arity_error. fin. Qed.
 
-Lemma call_function_env f args va go s : env_eq true (r_env s) (call_function rec f args va go s).
+Lemma call_function_env f args va go s : env_eq true nonsentinel (r_env s) (call_function rec f args va go s).
 Proof.
   unfold call_function. cbv zeta.
   destruct go; [exact I|].
-  match goal with |- env_eq _ _ (match ?x with _ => _ end) => destruct x as [[[num_in fvar] isvm]|] end; [|exact I].
+  match goal with |- env_eq _ _ _ (match ?x with _ => _ end) => destruct x as [[[num_in fvar] isvm]|] end; [|exact I].
   assert (Hfin : forall argv cs s1, r_env s1 = r_env s ->
-                 env_eq true (r_env s) (rec (CApply f argv cs) (set_rv s1 rv_nil))).
+                 env_eq true nonsentinel (r_env s) (rec (CApply f argv cs) (set_rv s1 rv_nil))).
   { intros argv cs s1 H1. call_rec (r_env s). }
-  repeat match goal with |- env_eq _ _ (if ?c then _ else _) => destruct c end;
+  repeat match goal with |- env_eq _ _ _ (if ?c then _ else _) => destruct c end;
     try (apply arity_error_env); try (apply Hfin; reflexivity).
-  all: try (apply eval_rvals_env; [reflexivity|]; intros; apply Hfin; assumption).
-  all: apply eval_rvals_env; [reflexivity|]; intros head s1 H1.
-  all: repeat match goal with |- env_eq _ _ (if ?c then _ else _) => destruct c end.
-  all: try (apply eval_rvals_env; [assumption|]; intros; apply Hfin; assumption).
-  all: try (apply eval_values_env; [assumption|]; intros vs s2 H2;
+  all: try (apply eval_rvals_env; [imp_solve|reflexivity|]; intros; apply Hfin; assumption).
+  all: apply eval_rvals_env; [imp_solve|reflexivity|]; intros head s1 H1.
+  all: repeat match goal with |- env_eq _ _ _ (if ?c then _ else _) => destruct c end.
+  all: try (apply eval_rvals_env; [imp_solve|assumption|]; intros; apply Hfin; assumption).
+  all: try (apply eval_values_env; [imp_solve|assumption|]; intros vs s2 H2;
             try (destruct (pack_variadic _ _) as [s3 packed] eqn:Hp; unfold pack_variadic in Hp;
                  destruct (new_slice _ _) as [st' sl]; injection Hp as <- <-);
             apply Hfin; simp; congruence).
-  all: try (apply eval_rvals_env; [assumption|]; intros tl s2 H2;
+  all: try (apply eval_rvals_env; [imp_solve|assumption|]; intros tl s2 H2;
             try (destruct (pack_variadic _ _) as [s3 packed] eqn:Hp; unfold pack_variadic in Hp;
                  destruct (new_slice _ _) as [st' sl]; injection Hp as <- <-);
             apply Hfin; simp; congruence).
   all: repeat match goal with
-              | |- env_eq _ _ (match skipn ?n ?l with _ => _ end) => destruct (skipn n l) as [|e1 [|e2 rest]]
+              | |- env_eq _ _ _ (match skipn ?n ?l with _ => _ end) => destruct (skipn n l) as [|e1 [|e2 rest]]
               end; try exact I.
   all: try (destruct (pack_variadic _ _) as [s3 packed] eqn:Hp; unfold pack_variadic in Hp;
             destruct (new_slice _ _) as [st' sl]; injection Hp as <- <-; apply Hfin; simp; congruence).
   all: try (apply Hfin; assumption).
-  all: try (step_rec; destruct (deref _ _); repeat match goal with |- env_eq _ _ (if ?c then _ else _) => destruct c end;
+  all: try (step_rec; destruct (deref _ _); repeat match goal with |- env_eq _ _ _ (if ?c then _ else _) => destruct c end;
             first [apply arity_error_env' | apply Hfin; congruence | fin]).
-  all: first [apply eval_rvals_env | apply eval_values_env]; [assumption|]; intros xs s2 H2; destruct isvm;
+  all: first [apply eval_rvals_env | apply eval_values_env]; [imp_solve|assumption|]; intros xs s2 H2; destruct isvm;
     try (destruct (pack_variadic _ _) as [s3 packed] eqn:Hp; unfold pack_variadic in Hp;
          destruct (new_slice _ _) as [st' sl]; injection Hp as <- <-);
     apply Hfin; simp; congruence.
 Qed.
 
 (* ---------------- statements ---------------- *)
-Lemma run_stmts_env l : forall s, env_eq false (r_env s) (run_stmts rec l s).
+Lemma run_stmts_env l : forall s, env_eq false anyerr (r_env s) (run_stmts rec l s).
 Proof.
   induction l as [|st r IH]; intros s; cbn [run_stmts]; [reflexivity|].
   destruct st; try (step_rec; eapply env_eq_to; [|apply IH]; congruence); try fin.
@@ -499,73 +544,73 @@ Qed.
 Lemma define_all_env st e names rvs s : r_env (set_st s (define_all st e names rvs)) = r_env s.
 Proof. reflexivity. Qed.
 
-Lemma run_var_env names es s : env_eq false (r_env s) (run_var rec names es s).
+Lemma run_var_env names es s : env_eq false anyerr (r_env s) (run_var rec names es s).
 Proof.
-  unfold run_var. apply eval_rhs_env; [reflexivity|]. intros rvs s1 H1. cbv zeta.
-  match goal with |- env_eq _ _ (match ?x with _ => _ end) => destruct x as [[[l off] n]|] end; [fin|].
+  unfold run_var. apply eval_rhs_env; [imp_solve|reflexivity|]. intros rvs s1 H1. cbv zeta.
+  match goal with |- env_eq _ _ _ (match ?x with _ => _ end) => destruct x as [[[l off] n]|] end; [fin|].
   destruct (rev rvs); [exact I|fin].
 Qed.
 
-Lemma let_all_env b ls : forall rvs s u, env_eq b (r_env s) (let_all rec ls rvs s u).
+Lemma let_all_env b (EP : err -> Prop) ls : (forall x, nonsentinel x -> EP x) -> forall rvs s u, env_eq b EP (r_env s) (let_all rec ls rvs s u).
 Proof.
-  induction ls as [|l lr IH]; intros rvs s u; cbn [let_all]; [reflexivity|].
+  intros Himp. induction ls as [|l lr IH]; intros rvs s u; cbn [let_all]; [reflexivity|].
   destruct rvs as [|r rr]; [reflexivity|].
   step_rec. eapply env_eq_to; [|apply IH]. congruence.
 Qed.
 
-Lemma bind_env b e0 (o : outcome) (k : rstate -> outcome) :
-  env_eq b e0 o -> (forall s1, r_env s1 = e0 -> env_eq b e0 (k s1)) ->
-  env_eq b e0 (match o with Ok s' => k s' | Err e s0 => Err e s0 | Abort a => Abort a end).
+Lemma bind_env b (EP : err -> Prop) e0 (o : outcome) (k : rstate -> outcome) :
+  env_eq b EP e0 o -> (forall s1, r_env s1 = e0 -> env_eq b EP e0 (k s1)) ->
+  env_eq b EP e0 (match o with Ok s' => k s' | Err e s0 => Err e s0 | Abort a => Abort a end).
 Proof. intros Ho Hk. destruct o; cbn in *; auto. Qed.
 
-Lemma run_lets_env ls rs s : env_eq false (r_env s) (run_lets rec ls rs s).
+Lemma run_lets_env ls rs s : env_eq false anyerr (r_env s) (run_lets rec ls rs s).
 Proof.
   unfold run_lets. destruct ls as [|l0 lr]; [fin|]. destruct rs as [|r0 rr]; [fin|].
-  apply eval_rhs_env; [reflexivity|]. intros rvs s1 H1. cbv zeta.
-  match goal with |- env_eq _ _ (match ?x with _ => _ end) => destruct x as [[[l off] n]|] end.
-  - apply bind_env; [eapply env_eq_to; [|apply let_all_env]; assumption|]. intros s2 H2. fin.
-  - apply bind_env; [eapply env_eq_to; [|apply let_all_env]; assumption|]. intros s2 H2.
+  apply eval_rhs_env; [imp_solve|reflexivity|]. intros rvs s1 H1. cbv zeta.
+  match goal with |- env_eq _ _ _ (match ?x with _ => _ end) => destruct x as [[[l off] n]|] end.
+  - apply bind_env; [eapply env_eq_to; [|apply let_all_env; imp_solve]; assumption|]. intros s2 H2. fin.
+  - apply bind_env; [eapply env_eq_to; [|apply let_all_env; imp_solve]; assumption|]. intros s2 H2.
     destruct (rev rvs); [exact I|fin].
 Qed.
 
-Lemma run_let_map_item_env ls r s : env_eq false (r_env s) (run_let_map_item rec ls r s).
+Lemma run_let_map_item_env ls r s : env_eq false anyerr (r_env s) (run_let_map_item rec ls r s).
 Proof.
   unfold run_let_map_item. step_rec. cbv zeta.
   destruct ls as [|a [|b [|c t]]]; try exact I;
-    (apply bind_env; [eapply env_eq_to; [|apply let_all_env]; congruence|]; intros s2 H2; fin).
+    (apply bind_env; [eapply env_eq_to; [|apply let_all_env; imp_solve]; congruence|]; intros s2 H2; fin).
 Qed.
 
 (* a block: run the statement in a child scope, then put env0 back on every path *)
 Lemma block_env b env0 so s1 :
-  env_eq b env0 match rec (CStmt so) s1 with
+  env_eq b anyerr env0 match rec (CStmt so) s1 with
                 | Ok s2 => Ok (set_env s2 env0)
                 | Err e s2 => Err e (set_env s2 env0)
                 | Abort a => Abort a
                 end.
-Proof. destruct (rec (CStmt so) s1); simp; auto. Qed.
+Proof. destruct (rec (CStmt so) s1); simp; auto. right; split; [reflexivity|exact I]. Qed.
 
-Lemma run_elifs_env elifs : forall el env0 s, env_eq false env0 (run_elifs orc rec elifs el env0 s).
+Lemma run_elifs_env elifs : forall el env0 s, env_eq false anyerr env0 (run_elifs orc rec elifs el env0 s).
 Proof.
   induction elifs as [|st r IH]; intros el env0 s; cbn [run_elifs].
   - destruct el; [|fin]. destruct (env_new _ _) as [st2 e2]. apply block_env.
   - destruct st; try exact I.
     destruct (env_new _ _) as [st1 e1].
-    destruct (rec (CExpr c) _) as [s1|e s1|a]; simp; [|right; reflexivity|exact I].
+    destruct (rec (CExpr c) _) as [s1|e s1|a]; simp; [|(right; split; [reflexivity|ep_solve])|exact I].
     apply truthy_env. intros b. destruct b; [|apply IH].
     destruct (env_new _ _) as [st2 e2]. apply block_env.
 Qed.
 
-Lemma run_if_env c th elifs el s : env_eq false (r_env s) (run_if orc rec c th elifs el s).
+Lemma run_if_env c th elifs el s : env_eq false anyerr (r_env s) (run_if orc rec c th elifs el s).
 Proof.
   unfold run_if. step_rec. cbv zeta. apply truthy_env. intros b. destruct b.
   - destruct (env_new _ _) as [st2 e2]. eapply env_eq_to; [|apply block_env]. assumption.
   - eapply env_eq_to; [|apply run_elifs_env]. assumption.
 Qed.
 
-Lemma run_try_env t v c f s : env_eq false (r_env s) (run_try rec t v c f s).
+Lemma run_try_env t v c f s : env_eq false anyerr (r_env s) (run_try rec t v c f s).
 Proof.
   unfold run_try. cbv zeta. destruct (env_new _ _) as [st1 e1].
-  assert (Hfin : forall s2, env_eq false (r_env s)
+  assert (Hfin : forall s2, env_eq false anyerr (r_env s)
             match f with
             | Some _ => match rec (CStmt f) s2 with
                         | Ok s3 => Ok (set_env s3 (r_env s))
@@ -576,21 +621,21 @@ Proof.
             end).
   { intros s2. destruct f; [apply block_env|reflexivity]. }
   destruct (rec (CStmt t) _) as [s1|e s1|a]; [apply Hfin| |exact I].
-  destruct e as [[| | |]|m|m]; try (right; reflexivity);
-    (destruct (rec (CStmt c) _) as [s2|e2 s2|a2]; [apply Hfin|right; reflexivity|exact I]).
+  destruct e as [[| | |]|m|m]; try ((right; split; [reflexivity|ep_solve]));
+    (destruct (rec (CStmt c) _) as [s2|e2 s2|a2]; [apply Hfin|(right; split; [reflexivity|ep_solve])|exact I]).
 Qed.
 
-Lemma run_loop_env c body s : env_eq false (r_env s) (run_loop rec c body s).
+Lemma run_loop_env c body s : env_eq false noloopsig (r_env s) (run_loop rec c body s).
 Proof.
   unfold run_loop. cbv zeta. destruct (env_new _ _) as [st1 e1].
   pose proof (Hrec (CLoop c body (r_env s)) (set_env (set_st s st1) e1)) as H. exact H.
 Qed.
 
-Lemma loop_iter_env c body env0 s : env_eq false env0 (loop_iter orc cancel_at rec c body env0 s).
+Lemma loop_iter_env c body env0 s : env_eq false noloopsig env0 (loop_iter orc cancel_at rec c body env0 s).
 Proof.
-  unfold loop_iter. destruct (poll cancel_at s) as [cancelled s0]. destruct cancelled; [right; reflexivity|].
+  unfold loop_iter. destruct (poll cancel_at s) as [cancelled s0]. destruct cancelled; [(right; split; [reflexivity|ep_solve])|].
   cbv zeta.
-  assert (Hafter : forall s1, env_eq false env0
+  assert (Hafter : forall s1, env_eq false noloopsig env0
             match rec (CStmt body) s1 with
             | Ok s2 => rec (CLoop c body env0) s2
             | Err (ESentinel SBreakS) s2 => Ok (set_env (set_rv s2 rv_nil) env0)
@@ -600,70 +645,75 @@ Proof.
             | Abort a => Abort a
             end).
   { intros s1. destruct (rec (CStmt body) s1) as [s2|e s2|a]; [apply (Hrec (CLoop c body env0) s2)| |exact I].
-    destruct e as [[| | |]|m|m]; try (right; reflexivity); try reflexivity.
+    destruct e as [[| | |]|m|m]; try ((right; split; [reflexivity|ep_solve])); try reflexivity.
     apply (Hrec (CLoop c body env0) s2). }
   destruct c as [ce|]; [|apply Hafter].
-  destruct (rec (CExpr ce) s0) as [s1|e s1|a]; [|right; reflexivity|exact I].
-  apply truthy_env. intros b. destruct b; [apply Hafter|reflexivity].
+  pose proof (Hrec (CExpr ce) s0) as Hc. simp.
+  destruct (rec (CExpr ce) s0) as [s1|e s1|a]; [| |exact I].
+  - apply truthy_env. intros b. destruct b; [apply Hafter|reflexivity].
+  - destruct Hc as [[Hc _]|[_ He]]; [discriminate|]. right. split; [reflexivity|now apply nonsentinel_noloopsig].
 Qed.
 
 Lemma for_slice_iter_env var body l off len i s :
-  env_eq false (r_env s) (for_slice_iter cancel_at rec var body l off len i s).
+  env_eq false noloopsig (r_env s) (for_slice_iter cancel_at rec var body l off len i s).
 Proof.
   unfold for_slice_iter. destruct (len <=? i); [reflexivity|].
   destruct (poll cancel_at s) as [cancelled s0] eqn:Hp.
   assert (H0 : r_env s0 = r_env s).
   { unfold poll in Hp. injection Hp as _ <-. reflexivity. }
-  destruct cancelled; [right; exact H0|]. cbv zeta.
-  match goal with |- env_eq _ _ (match rec ?cc ?ss with _ => _ end) =>
+  destruct cancelled; [right; split; [exact H0|ep_solve]|]. cbv zeta.
+  match goal with |- env_eq _ _ _ (match rec ?cc ?ss with _ => _ end) =>
     pose proof (Hrec cc ss) as H; simp; destruct (rec cc ss) as [s2|e s2|a] end; [|  |exact I].
   - call_rec (r_env s).
   - destruct e as [[| | |]|m|m]; simp;
-      (destruct H as [[_ Hd]|H]; [first [discriminate Hd | (left; split; [reflexivity|exact Hd])]|]);
-      first [call_rec (r_env s) | (simp; congruence) | (right; simp; congruence)].
+      (destruct H as [[_ Hd]|[H He]]; [first [discriminate Hd | (left; split; [reflexivity|exact Hd])]|]);
+      first [call_rec (r_env s) | (simp; congruence) | (right; split; [simp; congruence|ep_solve])].
 Qed.
 
 Lemma poll_env s c s0 : poll cancel_at s = (c, s0) -> r_env s0 = r_env s.
 Proof. unfold poll. intros H. injection H as _ <-. reflexivity. Qed.
 
 Ltac split_H H :=
-  destruct H as [[_ H]|H]; [first [discriminate H | (left; split; [reflexivity|exact H])]|].
+  destruct H as [[_ H]|[H ?]]; [first [discriminate H | (left; split; [reflexivity|exact H])]|].
 
 Lemma for_map_iter_env vars body m keys s :
-  env_eq false (r_env s) (for_map_iter cancel_at rec vars body m keys s).
+  env_eq false noloopsig (r_env s) (for_map_iter cancel_at rec vars body m keys s).
 Proof.
   unfold for_map_iter. destruct keys as [|k kr]; [reflexivity|].
   destruct (poll cancel_at s) as [cancelled s0] eqn:Hp. pose proof (poll_env _ _ _ Hp) as H0.
-  destruct cancelled; [right; exact H0|].
+  destruct cancelled; [right; split; [exact H0|ep_solve]|].
   destruct vars as [|v0 vr]; [exact I|]. cbv zeta.
-  match goal with |- env_eq _ _ (if ?c then _ else _) => destruct c end; [exact I|].
-  match goal with |- env_eq _ _ (match rec ?cc ?ss with _ => _ end) =>
+  match goal with |- env_eq _ _ _ (if ?c then _ else _) => destruct c end; [exact I|].
+  match goal with |- env_eq _ _ _ (match rec ?cc ?ss with _ => _ end) =>
     pose proof (Hrec cc ss) as H; simp; destruct (rec cc ss) as [s2|e s2|a] end; [|  |exact I].
   - call_rec (r_env s).
   - destruct e as [[| | |]|m0|m0]; simp; split_H H;
-      first [call_rec (r_env s) | (simp; congruence) | (right; simp; congruence)].
+      first [call_rec (r_env s) | (simp; congruence) | (right; split; [simp; congruence|ep_solve])].
 Qed.
 
-Lemma run_for_env vars value body s : env_eq false (r_env s) (run_for rec vars value body s).
+Lemma run_for_env vars value body s : env_eq false noloopsig (r_env s) (run_for rec vars value body s).
 Proof.
   unfold run_for. step_rec. cbv zeta. destruct (env_new _ _) as [st1 e1].
-  assert (Hrestore : forall o, env_eq false (r_env s)
+  assert (Hrestore : forall o e', env_eq false noloopsig e' o -> env_eq false noloopsig (r_env s)
             match o with
             | Ok s3 => Ok (set_env s3 (r_env s0))
             | Err e s3 => Err e (set_env s3 (r_env s0))
             | Abort a => Abort a
             end).
-  { intros o. destruct o; simp; auto. }
-  destruct (deref _ _); try apply Hrestore.
-  - destruct vars; [exact I|apply Hrestore].
-  - destruct (nth_error _ _); [|exact I]. destruct (1 <? _); [exact I|apply Hrestore].
+  { intros o e' Ho. destruct o; simp; auto.
+    destruct Ho as [Ho|[_ Ho]]; [now left|right; split; [congruence|exact Ho]]. }
+  destruct (deref _ _); try (apply (Hrestore _ e1); fin).
+  - destruct vars; [exact I|]. apply (Hrestore _ e1).
+    match goal with |- env_eq _ _ _ (rec ?cc ?ss) => pose proof (Hrec cc ss) as Hx; simp; exact Hx end.
+  - destruct (nth_error _ _); [|exact I]. destruct (1 <? _); [exact I|]. apply (Hrestore _ e1).
+    match goal with |- env_eq _ _ _ (rec ?cc ?ss) => pose proof (Hrec cc ss) as Hx; simp; exact Hx end.
 Qed.
 
-Lemma cfor_iter_env e2 e3 body env0 s : env_eq false env0 (cfor_iter orc cancel_at rec e2 e3 body env0 s).
+Lemma cfor_iter_env e2 e3 body env0 s : env_eq false noloopsig env0 (cfor_iter orc cancel_at rec e2 e3 body env0 s).
 Proof.
-  unfold cfor_iter. destruct (poll cancel_at s) as [cancelled s0]. destruct cancelled; [right; reflexivity|].
+  unfold cfor_iter. destruct (poll cancel_at s) as [cancelled s0]. destruct cancelled; [(right; split; [reflexivity|ep_solve])|].
   cbv zeta.
-  assert (Hpost : forall s2, env_eq false env0
+  assert (Hpost : forall s2, env_eq false noloopsig env0
             match e3 with
             | None => rec (CCFor e2 e3 body env0) s2
             | Some pe => match rec (CExpr pe) s2 with
@@ -673,8 +723,10 @@ Proof.
                          end
             end).
   { intros s2. destruct e3 as [pe|]; [|apply (Hrec (CCFor e2 None body env0) s2)].
-    destruct (rec (CExpr pe) s2) as [s3|e s3|a]; [apply (Hrec (CCFor e2 (Some pe) body env0) s3)|right; reflexivity|exact I]. }
-  assert (Hafter : forall s1, env_eq false env0
+    pose proof (Hrec (CExpr pe) s2) as Hc. simp.
+    destruct (rec (CExpr pe) s2) as [s3|e s3|a]; [apply (Hrec (CCFor e2 (Some pe) body env0) s3)| |exact I].
+    destruct Hc as [[Hc _]|[_ He]]; [discriminate|]. right. split; [reflexivity|now apply nonsentinel_noloopsig]. }
+  assert (Hafter : forall s1, env_eq false noloopsig env0
             match rec (CStmt body) s1 with
             | Ok s2 => match e3 with
                        | None => rec (CCFor e2 e3 body env0) s2
@@ -699,89 +751,100 @@ Proof.
             | Abort a => Abort a
             end).
   { intros s1. destruct (rec (CStmt body) s1) as [s2|e s2|a]; [apply Hpost| |exact I].
-    destruct e as [[| | |]|m|m]; try (right; reflexivity); try reflexivity. apply Hpost. }
+    destruct e as [[| | |]|m|m]; try ((right; split; [reflexivity|ep_solve])); try reflexivity. apply Hpost. }
   destruct e2 as [ce|]; [|apply Hafter].
-  destruct (rec (CExpr ce) s0) as [s1|e s1|a]; [|right; reflexivity|exact I].
-  apply truthy_env. intros b. destruct b; [apply Hafter|reflexivity].
+  pose proof (Hrec (CExpr ce) s0) as Hc. simp.
+  destruct (rec (CExpr ce) s0) as [s1|e s1|a]; [| |exact I].
+  - apply truthy_env. intros b. destruct b; [apply Hafter|reflexivity].
+  - destruct Hc as [[Hc _]|[_ He]]; [discriminate|]. right. split; [reflexivity|now apply nonsentinel_noloopsig].
 Qed.
 
-Lemma run_cfor_env s1o e2 e3 body s : env_eq false (r_env s) (run_cfor rec s1o e2 e3 body s).
+Lemma run_cfor_env s1o e2 e3 body s : env_eq false anyerr (r_env s) (run_cfor rec s1o e2 e3 body s).
 Proof.
   unfold run_cfor. cbv zeta. destruct (env_new _ _) as [st1 e1].
   destruct s1o as [st|].
-  - destruct (rec (CStmt (Some st)) _) as [s2|e s2|a]; [|right; reflexivity|exact I].
-    apply (Hrec (CCFor e2 e3 body (r_env s)) s2).
-  - apply (Hrec (CCFor e2 e3 body (r_env s)) (set_env (set_st s st1) e1)).
+  - destruct (rec (CStmt (Some st)) _) as [s2|e s2|a]; [|(right; split; [reflexivity|ep_solve])|exact I].
+    eapply env_eq_mono; [|apply (Hrec (CCFor e2 e3 body (r_env s)) s2)]. intros; exact I.
+  - eapply env_eq_mono; [|apply (Hrec (CCFor e2 e3 body (r_env s)) (set_env (set_st s st1) e1))]. intros; exact I.
 Qed.
 
-Lemma run_return_env es s : env_eq false (r_env s) (run_return rec es s).
+Lemma run_return_env es s : env_eq false anyerr (r_env s) (run_return rec es s).
 Proof.
   unfold run_return. destruct es as [|e [|e' r]]; [reflexivity|call_rec (r_env s)|].
-  apply eval_values_env; [reflexivity|]. intros vs s1 H1. destruct (new_slice _ _) as [st' sl]. fin.
+  apply eval_values_env; [imp_solve|reflexivity|]. intros vs s1 H1. destruct (new_slice _ _) as [st' sl]. fin.
 Qed.
 
-Lemma run_module_env name body s : env_eq false (r_env s) (run_module rec name body s).
+Lemma run_module_env name body s : env_eq false anyerr (r_env s) (run_module rec name body s).
 Proof.
   unfold run_module. cbv zeta.
   destruct (new_module _ _ _ _) as [[h m] [u|c| | |]]; try (left; split; reflexivity).
-  destruct (rec (CStmt body) _) as [s1|e s1|a]; [reflexivity|right; reflexivity|exact I].
+  destruct (rec (CStmt body) _) as [s1|e s1|a]; [reflexivity|(right; split; [reflexivity|ep_solve])|exact I].
 Qed.
 
 Lemma switch_case_exprs_env es : forall value body env0 s next,
-  (forall s1, env_eq false env0 (next s1)) ->
-  env_eq false env0 (switch_case_exprs orc rec es value body env0 s next).
+  (forall s1, env_eq false anyerr env0 (next s1)) ->
+  env_eq false anyerr env0 (switch_case_exprs orc rec es value body env0 s next).
 Proof.
   induction es as [|e r IH]; intros value body env0 s next Hn; cbn [switch_case_exprs]; [apply Hn|].
-  destruct (rec (CExpr e) s) as [s1|er s1|a]; [|right; reflexivity|exact I].
+  destruct (rec (CExpr e) s) as [s1|er s1|a]; [|(right; split; [reflexivity|ep_solve])|exact I].
   apply tri_bind_env; [intros b|apply IH; assumption].
   destruct b; [apply block_env|apply IH; assumption].
 Qed.
 
 Lemma switch_cases_env cases : forall value default env0 s,
-  env_eq false env0 (switch_cases orc rec cases value default env0 s).
+  env_eq false anyerr env0 (switch_cases orc rec cases value default env0 s).
 Proof.
   induction cases as [|c r IH]; intros value default env0 s; cbn [switch_cases].
   - destruct default; [apply block_env|reflexivity].
   - destruct c; try exact I. apply switch_case_exprs_env. intros s1. apply IH.
 Qed.
 
-Lemma run_switch_env e cases default s : env_eq false (r_env s) (run_switch orc rec e cases default s).
+Lemma run_switch_env e cases default s : env_eq false anyerr (r_env s) (run_switch orc rec e cases default s).
 Proof.
   unfold run_switch. cbv zeta. destruct (env_new _ _) as [st1 e1].
-  destruct (rec (CExpr e) _) as [s1|er s1|a]; [apply switch_cases_env|right; reflexivity|exact I].
+  destruct (rec (CExpr e) _) as [s1|er s1|a]; [apply switch_cases_env|(right; split; [reflexivity|ep_solve])|exact I].
 Qed.
 
-Lemma register_defer_env f args va s : env_eq true (r_env s) (register_defer rec f args va s).
+Lemma register_defer_env f args va s : env_eq true nonsentinel (r_env s) (register_defer rec f args va s).
 Proof.
   unfold register_defer. cbv zeta.
-  match goal with |- env_eq _ _ (match ?x with _ => _ end) => destruct x as [[[num_in fvar] isvm]|] end; [|exact I].
-  repeat match goal with |- env_eq _ _ (if ?c then _ else _) => destruct c end; try fin.
-  apply eval_rvals_env; [reflexivity|]. intros argv s1 H1. fin.
+  match goal with |- env_eq _ _ _ (match ?x with _ => _ end) => destruct x as [[[num_in fvar] isvm]|] end; [|exact I].
+  repeat match goal with |- env_eq _ _ _ (if ?c then _ else _) => destruct c end; try fin.
+  apply eval_rvals_env; [imp_solve|reflexivity|]. intros argv s1 H1. fin.
 Qed.
 
-Lemma run_defer_env e s : env_eq false (r_env s) (run_defer rec e s).
+Lemma run_defer_env e s : env_eq false anyerr (r_env s) (run_defer rec e s).
 Proof.
-  unfold run_defer. apply env_eq_weaken. destruct e; try fin.
+  unfold run_defer. apply (env_eq_weaken false nonsentinel anyerr); [intros; exact I|]. destruct e; try fin.
   - destruct (env_get _ _ _); try exact I; try fin.
     destruct (deref _ _); try fin; apply register_defer_env.
-  - apply eval_operand_env; [reflexivity|]. intros fv s1 H1.
+  - apply eval_operand_env; [imp_solve|reflexivity|]. intros fv s1 H1.
     destruct fv; try fin; (eapply env_eq_to; [|apply register_defer_env]; assumption).
 Qed.
 
-Lemma run_defers_env ds err0 s : env_eq true (r_env s) (run_defers rec ds err0 s).
+Lemma run_defers_env ds err0 s :
+  env_eq true (fun e => nonsentinel e \/ err0 = Some e) (r_env s) (run_defers rec ds err0 s).
 Proof.
-  unfold run_defers. destruct ds as [|d r]; [destruct err0; fin|]. cbv zeta.
-  match goal with |- env_eq _ _ (match rec ?cc ?ss with _ => _ end) =>
+  unfold run_defers. destruct ds as [|d r].
+  { destruct err0; simp; [right; split; [reflexivity|right; reflexivity]|reflexivity]. }
+  cbv zeta.
+  match goal with |- env_eq _ _ _ (match rec ?cc ?ss with _ => _ end) =>
     pose proof (Hrec cc ss) as H; simp; destruct (rec cc ss) as [s1|e s1|a] end; [| |exact I].
-  - call_rec (r_env s).
-  - destruct H as [[H _]|H]; [discriminate|]. call_rec (r_env s).
+  - match goal with |- env_eq _ _ _ (rec ?cc ?ss) => pose proof (Hrec cc ss) as Hx; simp end.
+    eapply env_eq_to; [|exact Hx]. simp. congruence.
+  - destruct H as [[H _]|[H He]]; [discriminate|].
+    match goal with |- env_eq _ _ _ (rec ?cc ?ss) => pose proof (Hrec cc ss) as Hx; simp end.
+    eapply env_eq_to; [simp; exact H|].
+    eapply env_eq_mono; [|exact Hx]. cbv beta. intros e' [Hn|Heq]; [now left|].
+    destruct err0 as [[[| | |]|m|m]|]; cbn in Heq; try (right; exact Heq);
+      injection Heq as <-; now left.
 Qed.
 
-Lemma run_delete_env item key s : env_eq false (r_env s) (run_delete rec item key s).
+Lemma run_delete_env item key s : env_eq false anyerr (r_env s) (run_delete rec item key s).
 Proof.
-  unfold run_delete. apply env_eq_weaken. step_rec. unfold opt_expr.
+  unfold run_delete. apply (env_eq_weaken false nonsentinel anyerr); [intros; exact I|]. step_rec. unfold opt_expr.
   assert (Hk : forall s2, r_env s2 = r_env s ->
-            env_eq true (r_env s)
+            env_eq true nonsentinel (r_env s)
               (let iv := deref (r_st s2) (r_rv s0) in
                let kv := deref (r_st s2) (r_rv s2) in
                match iv with
@@ -806,7 +869,7 @@ Proof.
                | _ => raise ("first argument to delete cannot be type " ++ kind_name (kind_of iv))%string s2
                end)).
   { intros s2 H2. cbv zeta. destruct (deref (r_st s2) (r_rv s0)); try fin.
-    - match goal with |- env_eq _ _ (if ?c then _ else _) => destruct c end; [|fin].
+    - match goal with |- env_eq _ _ _ (if ?c then _ else _) => destruct c end; [|fin].
       destruct (delete_global _ _ _ _); try exact I; fin.
     - destruct key; [|fin]. destruct (negb _); [fin|]. destruct (nth_error _ _); [fin|exact I]. }
   destruct key as [ke|].
@@ -814,20 +877,20 @@ Proof.
   - apply Hk. assumption.
 Qed.
 
-Lemma run_single_env so s : env_eq false (r_env s) (run_single orc cancel_at rec so s).
+Lemma run_single_env so s : env_eq false anyerr (r_env s) (run_single orc cancel_at rec so s).
 Proof.
   unfold run_single. destruct (poll cancel_at s) as [cancelled s0] eqn:Hp. pose proof (poll_env _ _ _ Hp) as H0.
-  destruct cancelled; [right; exact H0|].
+  destruct cancelled; [right; split; [exact H0|ep_solve]|].
   destruct so as [st|]; [|exact H0].
   eapply env_eq_to; [exact H0|].
   destruct st; try exact I; try fin.
   - apply run_stmts_env.
-  - apply env_eq_weaken. call_rec (r_env s0).
+  - call_rec (r_env s0).
   - apply run_if_env.
   - apply run_try_env.
-  - apply run_for_env.
+  - eapply env_eq_mono; [|apply run_for_env]. intros; exact I.
   - apply run_cfor_env.
-  - apply run_loop_env.
+  - eapply env_eq_mono; [|apply run_loop_env]. intros; exact I.
   - apply run_return_env.
   - step_rec. apply tri_bind_env; [intros m|exact I]. destruct (String.eqb m ""); fin.
   - apply run_module_env.
@@ -839,7 +902,7 @@ Proof.
   - apply run_delete_env.
 Qed.
 
-Theorem exec_body_env c s : env_eq (strict_cmd c) (post_env c s) (exec_body orc cancel_at rec c s).
+Theorem exec_body_env c s : env_eq (strict_cmd c) (err_pred c) (post_env c s) (exec_body orc cancel_at rec c s).
 Proof.
   destruct c; cbn [exec_body strict_cmd post_env].
   - apply run_single_env.
@@ -858,7 +921,7 @@ End Scope.
 
 (* the interpreter at every fuel *)
 Theorem exec_env orc cancel_at fuel : forall c s,
-  env_eq (strict_cmd c) (post_env c s) (exec orc cancel_at fuel c s).
+  env_eq (strict_cmd c) (err_pred c) (post_env c s) (exec orc cancel_at fuel c s).
 Proof.
   induction fuel as [|f IH]; intros c s; cbn [exec]; [exact I|].
   apply exec_body_env. exact IH.
